@@ -99,7 +99,7 @@ pub fn observe_gnpstat(t: &mut Toks) -> String {
         match random::fast_gnp_random_graph(n, p, directed, Some(seed0 + s)) {
             Ok(g) => {
                 sum += g.get_all_edges().len() as u64;
-                if n <= 12 { for e in g.get_all_edges() { union.insert((e.u, e.v)); } }
+                if n <= 40 { for e in g.get_all_edges() { union.insert((e.u, e.v)); } }
             }
             Err(_) => errs += 1,
         }
@@ -132,8 +132,13 @@ pub fn gen_case(rng: &mut Rng, family: &str, profile: &str, size: usize) -> Stri
         }
         "gnpstat" => {
             // ordinary probabilities, and probabilities so small that the expected number of edges is a few or (almost) none
-            if rng.chance(60) {
-                let (n, count) = *rng.pick(&[(6i64, 600u64), (10, 400), (25, 300), (60, 150), (120, 60)]);
+            if rng.chance(35) {
+                // every small size, odd and even: "every possible pair can occur" is decided per pair
+                let n = rng.range(2, 13);
+                let pnum = *rng.pick(&[20i64, 35, 50, 65, 80]);
+                format!("gnpstat {} {} 100 {} {} {}", n, pnum, rng.below(2), rng.below(1_000_000), 300)
+            } else if rng.chance(60) {
+                let (n, count) = *rng.pick(&[(6i64, 600u64), (10, 400), (25, 300), (33, 300), (60, 150), (120, 60)]);
                 let pnum = *rng.pick(&[5i64, 10, 30, 50, 70, 90]);
                 format!("gnpstat {} {} 100 {} {} {}", n, pnum, rng.below(2), rng.below(1_000_000), count)
             } else {
